@@ -52,7 +52,8 @@ def model_check(ctx, prop):
         ctx.cov["model_checking_skipped"] = True
         return
     runs = [("MCStaker_quick.cfg", 600), ("MCStaker_quickB.cfg", 600)] if q else \
-           [("MCStaker_thorough.cfg", 2400), ("MCStaker_thoroughB.cfg", 1800), ("MCStaker_round.cfg", 1800)]
+           [("MCStaker_thorough.cfg", 3000), ("MCStaker_thoroughB.cfg", 2400), ("MCStaker_mid.cfg", 1200),
+            ("MCStaker_round.cfg", 1200)]
     for base, to in runs:
         name = "%s_%s" % (prop, base)
         ctx.tlc_must_hold(SUB, "MCStaker", cfg=name, workers=WORKERS, timeout=to, heap="6g",
@@ -301,9 +302,20 @@ RULE = {
 def histories(ctx, prop, plan):
     """plan: list of (preset, mode, runs, blocks, seed_offset).  Records, validates, fills the evidence."""
     all_stats, accepted = [], 0
+    # one TLC run per recording: keep recordings at <= 40 seeded histories (about 10^4 events, 30 MB of ndjson)
+    chunks = []
     for preset, mode, runs, blocks, off in plan:
-        label = "%s-%s" % (preset, mode.replace(",", "+"))
-        rec = record(ctx, preset, mode, runs, blocks, ctx.seed * 101 + off, label)
+        k = 0
+        while runs > 0:
+            n = min(runs, 40)
+            scripted = [m for m in mode.split(",") if m in ("f4", "edges")] if k == 0 else []
+            seeded = [m for m in mode.split(",") if m not in ("f4", "edges")]
+            chunks.append((preset, ",".join(scripted + seeded), n, blocks, ctx.seed * 101 + off + 1000 * k, k))
+            runs -= n
+            k += 1
+    for preset, mode, runs, blocks, seed, k in chunks:
+        label = "%s-%s%s" % (preset, mode.replace(",", "+"), "-%d" % k if k else "")
+        rec = record(ctx, preset, mode, runs, blocks, seed, label)
         if rec is None:
             continue
         hists, verdict = validate_recording(ctx, prop, rec, label)
